@@ -107,6 +107,62 @@ def check_event_constructor(ctx, rep):
                         'KeyEvent::new returns %s for %s; %s' % (term_str(lf.ret) if lf.ret is not None else lf.kind, narrowed or 'every input', leaf_where(lf)))
 
 
+def check_eq_structural(ctx, rep, type_names):
+    """A hand-written `PartialEq` of a value type the properties compare with (`reported as exactly the key ...`, `distinct
+    sequences denote distinct keys`, `identical key event`) must be plain structural equality - a derived one is by
+    construction.  Otherwise two different reported values can pass for the same one."""
+    from .extract import flat_scalars
+    for f in ctx.facts['fns']:
+        if f.get('derived') or f['name'] not in ('eq', 'ne') or (f.get('impl_trait') or '').split('::')[-1] != 'PartialEq':
+            continue
+        st = f.get('impl_self') or {}
+        if st.get('k') != 'adt' or st.get('path', '').split('::')[-1] not in type_names:
+            continue
+        tname = st['path'].split('::')[-1]
+        try:
+            eng = Engine(ctx.prog)
+            leaves = eng.run(f['path'], arg_names=['self', 'other'])
+            check_partition(eng, leaves)
+            a0, b0 = eng.initial_store.get(('H', 'self')), eng.initial_store.get(('H', 'other'))
+            fa, fb = flat_scalars(a0), flat_scalars(b0)
+            if len(fa) != len(fb) or any(x[0] != 'a' for x in fa + fb):
+                raise Undecided('operands are not plain field tuples')
+            names = [x[1] for x in fa + fb]
+            bad = None
+            n = 0
+            for lf in leaves:
+                if lf.kind != 'return':
+                    bad = ('panics', leaf_where(lf)); break
+                doms = []
+                for nm in names:
+                    d = lf.doms.get(nm)
+                    if d is None:
+                        raise Undecided('comparison over an unbounded field %s' % nm)
+                    doms.append(sorted(d))
+                size = 1
+                for d in doms:
+                    size *= len(d)
+                if size > (1 << 21):
+                    raise Undecided('too many value pairs to enumerate')
+                for vals in itertools.product(*doms):
+                    n += 1
+                    asg = dict(zip(names, vals))
+                    got = lf.ret[1] if lf.ret[0] == 'c' else ev(lf.ret, asg)
+                    same = all(asg[x[1]] == asg[y[1]] for x, y in zip(fa, fb))
+                    want = int(same) if f['name'] == 'eq' else int(not same)
+                    if got != want and bad is None:
+                        bad = ('%s(%s, %s) = %s' % (f['name'], [asg[x[1]] for x in fa], [asg[y[1]] for y in fb], bool(got)), leaf_where(lf))
+                if bad:
+                    break
+            rep.ob('hand-written PartialEq impls are structural', max(n, 1), 0 if bad else max(n, 1))
+            if bad:
+                rep.finding('%s eq-of-%s is-not-structural' % (rep.prop, tname),
+                            '%s is hand-written and not structural equality: %s; two different reported values compare equal (or equal ones differ); %s' % (
+                                f['path'], bad[0], bad[1]))
+        except Undecided as u:
+            rep.finding('%s eq-of-%s undecided' % (rep.prop, tname), 'hand-written PartialEq impl %s could not be analysed: %s' % (f['path'], u))
+
+
 def check_clone_faithful(ctx, rep, type_names):
     """A hand-written `Clone` of a state type must produce an equal state (a derived one does by construction): otherwise
     the copy's state is not the history it was copied from."""
@@ -125,7 +181,8 @@ def check_clone_faithful(ctx, rep, type_names):
             continue
         for lf in leaves:
             src = lf.cells.get(('H', 'self'))
-            ok = lf.kind == 'return' and src is not None and lf.ret is not None and lf.ret[0] == 'adt' and src[0] == 'adt' and len(lf.ret[3]) == len(src[3])
+            ok = lf.kind == 'return' and src is not None and lf.ret is not None and lf.ret[0] == 'adt' and src[0] == 'adt' \
+                and lf.ret[1] == src[1] and lf.ret[2] == src[2] and len(lf.ret[3]) == len(src[3])
             bad_field = None
             if ok:
                 clone_rets = {}
@@ -154,6 +211,7 @@ def check_modifiers(ctx, rep, tier):
     """C04"""
     check_event_constructor(ctx, rep)
     check_clone_faithful(ctx, rep, ('EventDecoder', 'Modifiers', 'Keyboard'))
+    check_eq_structural(ctx, rep, ('Modifiers', 'KeyCode', 'KeyState', 'KeyEvent'))
     keys = load_keys()
     m = EventModel(ctx)
     kc, ks = ctx.kc, ctx.ks
@@ -388,6 +446,7 @@ def check_modifiers(ctx, rep, tier):
     rep.rule = ('per path class of the generic process_keyevent, per flag: post-value term compared with the specified one-step transition '
                 '(momentary: Down sets / Up clears own key; capslock toggles on Down; numlock toggles on Down unless rctrl2) over the '
                 'class cube projected on the atoms the term and the spec mention; plus initial state, who-may-write and no &mut escape; '
+                'KeyEvent::new stores its arguments; hand-written Clone impls of the state types copy field for field; '
                 'non-trivial = classes that write a flag')
     return m
 
@@ -432,6 +491,7 @@ def check_decoding(ctx, rep, tier):
     """C14"""
     check_event_constructor(ctx, rep)
     check_clone_faithful(ctx, rep, ('EventDecoder', 'Keyboard'))
+    check_eq_structural(ctx, rep, ('DecodedKey', 'KeyCode', 'KeyState', 'KeyEvent', 'HandleControl'))
     keys = load_keys()
     m = EventModel(ctx)
     kc, ks = ctx.kc, ctx.ks
@@ -521,7 +581,8 @@ def check_decoding(ctx, rep, tier):
                             if not hc_ok:
                                 problems.append('Ctrl-handling mode passed to the layout is %s, not the current mode' % term_str(a[3]))
                         want_ret = ('adt', OPT, 1, (c['ret'],))
-                        if r != want_ret:
+                        S_ = _St(lf.doms)
+                        if r != want_ret and m.eng.deep(r, S_) != m.eng.deep(want_ret, S_):
                             problems.append('result is %s, not Some(<what the layout returned>)' % term_str(r))
                         # the layout may not be consulted on a stale copy of the decoder
                     n_layout_classes += 1
@@ -569,7 +630,7 @@ def check_decoding(ctx, rep, tier):
     rep.rule = ('per path class of the generic process_keyevent x (key, key state, rctrl2): Up/SingleShot -> None and no layout call; '
                 'modifier/lock Down -> Some(RawKey(self)) (NumLock with rctrl2 -> PauseBreak); any other Down -> exactly one opaque call '
                 '<L as KeyboardLayout>::map_keycode(&self.layout, code, &self.modifiers (unmodified), self.handle_ctrl) whose result is returned as Some(..); '
-                'setters write exactly their field')
+                'setters write exactly their field; KeyEvent::new stores its arguments; hand-written Clone impls copy field for field')
     return m
 
 
